@@ -101,7 +101,97 @@ def cases(tier, seed):
         for rho0 in [1e-8, 1.0]:
             for api in ["update", "filter_insert"]:
                 out.append({"kind": kind, "rho0": rho0, "api": api, "V": t["V"], "depth": t["depth"]})
+    # E5: TLC-enumerated state graph of tla/PenaltyFilter.tla, every edge replayed on the implementation
+    out.append({"kind": "tlc", "V": [0, 1, 2], "K": 2, "rho0": 1e-8})
+    if tier == "thorough":
+        out.append({"kind": "tlc", "V": [0, 1, 2, 3], "K": 3, "rho0": 1.0})
     return out
+
+
+def tlc_case(case):
+    """E5: enumerate the reachable graph of tla/PenaltyFilter.tla with TLC and replay EVERY edge on the real filter."""
+    import os
+    import re
+    import shutil
+    import subprocess
+    import tempfile
+
+    here = os.path.dirname(os.path.dirname(os.path.dirname(os.path.abspath(__file__))))
+    tmp = tempfile.mkdtemp(prefix="pgfmc_tlc_")
+    try:
+        for f in ("PenaltyFilter.tla", "PenaltyFilter.cfg"):
+            shutil.copy(os.path.join(here, "tla", f), tmp)
+        cfg = open(os.path.join(tmp, "PenaltyFilter.cfg")).read()
+        cfg = re.sub(r"V = \{[^}]*\}", "V = {" + ", ".join(str(v) for v in case["V"]) + "}", cfg)
+        cfg = re.sub(r"K = \d+", f"K = {case['K']}", cfg)
+        open(os.path.join(tmp, "PenaltyFilter.cfg"), "w").write(cfg)
+        p = subprocess.run(["tlc", "-workers", "1", "-noGenerateSpecTE", "-deadlock", "-metadir", os.path.join(tmp, "meta"),
+                            "-dump", "dot,actionlabels", os.path.join(tmp, "g.dot"), "PenaltyFilter"],
+                           cwd=tmp, capture_output=True, text=True, timeout=1500)
+        if "No error has been found" not in p.stdout:
+            return {"outcome": "tlc-failed", "key": None, "violations": [], "stats": {},
+                    "harness_error": "TLC did not finish cleanly (invariant Pareto/TypeOK of the model violated or tool error):\n" + p.stdout[-1500:]}
+        nodes, edges = {}, []
+        for line in open(os.path.join(tmp, "g.dot")):
+            m = re.match(r'^(-?\d+) -> (-?\d+) \[label="Insert\((\d+),(\d+)\)"', line)
+            if m:
+                edges.append((m.group(1), m.group(2), int(m.group(3)), int(m.group(4))))
+                continue
+            m = re.match(r'^(-?\d+) \[label="(.*?)"[,\]]', line)
+            if m:
+                lab = m.group(2)
+                ent = re.search(r"entries = \{(.*?)\}", lab).group(1)
+                pairs = frozenset((int(a), int(b)) for a, b in re.findall(r"<<(\d+), (\d+)>>", ent))
+                k = int(re.search(r"k = (\d+)", lab).group(1))
+                verdict = re.search(r'last = <<\d+, \d+, \\"(\w+)\\">>', lab).group(1)
+                nodes[m.group(1)] = (pairs, k, verdict)
+    finally:
+        shutil.rmtree(tmp, ignore_errors=True)
+    init = next(n for n, v in nodes.items() if v[2] == "init")
+    parent = {init: None}
+    order = [init]
+    adj = {}
+    for u, v, a, b in edges:
+        adj.setdefault(u, []).append((v, a, b))
+    qi = 0
+    while qi < len(order):
+        u = order[qi]; qi += 1
+        for v, a, b in adj.get(u, []):
+            if v not in parent:
+                parent[v] = (u, a, b)
+                order.append(v)
+
+    def path(n):
+        ev = []
+        while parent[n] is not None:
+            u, a, b = parent[n]
+            ev.append((a, b))
+            n = u
+        return ev[::-1]
+
+    viol = []
+    rho0 = case["rho0"]
+    for u, v, a, b in edges:
+        f = make_filter("Objective", rho0)
+        for (x, y) in path(u):
+            f.update(FakeIterate(-1, -1), FakeIterate(x, y))
+        got_src = (frozenset((int(e[0]), int(e[1])) for e in f.entries), f.rho)
+        exp_src = (nodes[u][0], rho0 * 10.0 ** 0)
+        r = f.update(FakeIterate(-1, -1), FakeIterate(a, b))
+        got = frozenset((int(e[0]), int(e[1])) for e in f.entries)
+        rho_exp = rho0
+        for _ in range(nodes[v][1]):
+            rho_exp = rho_exp * 10.0
+        want_acc = nodes[v][2] == "accepted"
+        if got_src[0] != exp_src[0] or got != nodes[v][0] or bool(r.accept) != want_acc or f.rho != rho_exp or len(f.entries) != len(got):
+            viol.append({"sig": "C18|tlc_edge", "msg": f"model edge {sorted(nodes[u][0])},k={nodes[u][1]} --Insert({a},{b})--> {sorted(nodes[v][0])},k={nodes[v][1]} "
+                                                      f"({nodes[v][2]}) but the implementation gave entries {sorted(got)}, accept={r.accept}, rho={f.rho!r}",
+                         "detail": {"path": path(u), "event": [a, b]}})
+            if len(viol) > 5:
+                break
+    return {"outcome": "tlc-conform" if not viol else "violating", "key": [f"tlc|{sorted(v[0])}|{v[1]}" for v in nodes.values()], "violations": viol[:3],
+            "stats": {"states": len(nodes), "transitions": len(edges), "tlc_edges_replayed": len(edges), "ordered_states": 0, "maxdepth": 0,
+                      "sample_trace": path(order[-1])}}
 
 
 def build(kind, rho0, api, hist):
@@ -123,6 +213,8 @@ def step(kind, api, f, ref, a, b):
 
 
 def run_case(case):
+    if case.get("kind") == "tlc":
+        return tlc_case(case)
     kind, rho0, api, V, depth = case["kind"], case["rho0"], case["api"], case["V"], case["depth"]
     events = [(a, b) for a in V for b in V]
     viol = []
@@ -216,6 +308,7 @@ def summarize(cases_, results, tier):
         "ordered_impl_states": sum(r["stats"].get("ordered_states", 0) for r in results),
         "transitions": tr,
         "traces_validated_against_impl": tr,
+        "tlc_edges_replayed": sum(r["stats"].get("tlc_edges_replayed", 0) for r in results),
         "depth_bound": TABLE[tier]["depth"],
         "value_grid": TABLE[tier]["V"],
     }
@@ -228,6 +321,6 @@ def samples(cases_, results):
 def vacuity(cases_, results, tier):
     out = []
     for c, r in zip(cases_, results):
-        if r["stats"].get("states", 0) < 20:
+        if r["stats"].get("states", 0) < 20 and not r.get("harness_error"):
             out.append(f"too few states for {c}")
     return out
